@@ -374,6 +374,18 @@ def unit_wide(a):
     return stats
 
 
+def unit_tall(a):
+    """tall tables whose width changes after a whole block of equal rows (a comparison done in slices, or against the previous row only, misses it)"""
+    stats = Stats()
+    cases = []
+    for b in a["blocks"]:
+        for counts in ([2] * b + [3], [2] * b + [3] * b, [2] * b + [1] + [2] * 3, [2] * (2 * b) + [3] * b + [2] * b, [1] * b + [2] * b + [3] * b, [3] * (b + 1) + [2] * (b - 1), [2] * (b + b // 2)):
+            for where in ("data", "examples"):
+                cases.append({"sub": "shape", "counts": counts, "where": where, "indents": [3] * len(counts), "escapes": False, "follow": "step" if where == "data" else "", "budget_s": 120})
+    sweep(stats, [c for i, c in enumerate(cases) if i % a["nshards"] == a["shard"]], check_shape)
+    return stats
+
+
 def replay(case, stats):
     if case.get("sub") == "two-tables":
         return check_two_tables(case, stats)
@@ -396,6 +408,7 @@ def run(ctx):
               [{"n": 900 if q else 8000, "seed": ctx.seed, "shard": i} for i in range(8 if q else 16)], procs=16)
     ctx.units("rows-concurrent-threads", unit_concurrent, [{"reps": 30 if q else 300}])
     ctx.units("table-shape-wide", unit_wide, [{"widths": [9, 10, 11, 31, 32, 33, 64, 100, 127, 128, 129, 255, 256, 257, 258, 300, 1000, 4095, 4096, 4097, 5000] + ([] if q else [65535, 65536, 65537])}])
+    ctx.units("table-shape-tall", unit_tall, [{"blocks": [2, 8, 16, 32, 64, 100, 128, 255, 256, 257, 512, 1000, 1024] + ([] if q else [2048, 4096, 10000, 65536]), "shard": i, "nshards": 16} for i in range(16)], procs=16)
     ctx.units("table-shape", unit_shape,
               [{"n": 750 if q else 6000, "seed": ctx.seed, "shard": i} for i in range(8 if q else 16)], procs=16)
     ctx.exhaustive = False
